@@ -128,6 +128,20 @@ func (e *env) remove(w *waiter) {
 	}
 }
 
+// findAll returns every live waiter of a component (code that parks one component at several gates at once - calls made
+// concurrently - is scheduled gate by gate in free mode)
+func (e *env) findAll(who string) []*waiter {
+	e.mu.Lock()
+	defer e.mu.Unlock()
+	var out []*waiter
+	for _, w := range e.ws {
+		if w.who == who && w.ctx.Err() == nil {
+			out = append(out, w)
+		}
+	}
+	return out
+}
+
 // find returns the live waiter of a component (nil if it is not parked at a gate)
 func (e *env) find(who string) *waiter {
 	e.mu.Lock()
